@@ -305,7 +305,7 @@ template <class T> struct Maker<AnyModel<T>> { static AnyModel<T> make(Ctx& c) {
         if mem["kind"] == "ctor":
             if not mem["params"]:
                 return None  # default construction leaves values indeterminate by design; reading them would be the caller's error
-            code = pre + ["auto r = [&] { vrt::Count k; return %s(%s); }();" % (selfT, call_args), "vrt::consume(c, r);"] + post
+            code = pre + ["/*ctor*/ auto r = [&] { vrt::Count k; return %s(%s); }();" % (selfT, call_args), "vrt::consume(c, r);"] + post
             return code, flags
         name = mem["name"]
         is_void = mem["ret"].replace("constexpr", "").replace("inline", "").strip() == "void"
@@ -880,7 +880,21 @@ template <class T> struct Maker<AnyModel<T>> { static AnyModel<T> make(Ctx& c) {
         self.only = saved
         return '#include "c20_prelude.hpp"\nnamespace {\n' + body + "}  // namespace\n"
 
-    def translation_units(self, ntus=16, subset=None, inline_twins=False, at_exit_object=False, const_literals=None):
+    @staticmethod
+    def offset_operands(body):
+        """optimised build: every operand made by vrt::make lives in a vrt::Off<X> (behind a pad of its own alignment)"""
+        def rep(m):
+            const, name, typ = m.group(1) or "", m.group(2), m.group(3)
+            return "vrt::Off<%s> %s_h{vrt::make<%s>(c)}; %sauto& %s = %s_h.value;" % (typ, name, typ, const, name, name)
+        body = re.sub(r"(const )?auto (\w+) = vrt::make<([^;]*?)>\(c\);", rep, body)
+        # constructor ops: the object is constructed in place behind the pad (as an element of a container would be)
+        def ctor(m):
+            typ, args = m.group(1), m.group(2)
+            return ("vrt::Off<%s> r_h = [&] { vrt::Count k; return vrt::Off<%s>(std::in_place%s%s); }(); auto& r = r_h.value;"
+                    % (typ, typ, ", " if args.strip() else "", args))
+        return re.sub(r"/\*ctor\*/ auto r = \[&\] \{ vrt::Count k; return ([^()]*?)\((.*?)\); \}\(\);", ctor, body)
+
+    def translation_units(self, ntus=16, subset=None, inline_twins=False, at_exit_object=False, const_literals=None, offset_operands=False):
         """returns {filename: text}.  Every TU that includes the library pays a large fixed cost under the
         sanitizers (the dynamic initialisers of all enumeration tables are emitted in each), so the harness
         is packed into exactly `ntus` TUs of equal estimated weight.
@@ -946,6 +960,8 @@ template <class T> struct Maker<AnyModel<T>> { static AnyModel<T> make(Ctx& c) {
         for i, (w, ts) in enumerate(bins):
             if ts:
                 body = "".join(ts)
+                if offset_operands:
+                    body = self.offset_operands(body)
                 if inline_twins:
                     # C19 API sweep: every TU gets its own copy of the (small) enumeration-function table, FIRST, so that whichever
                     # TU the link order initialises first can run histories that combine them with its other ops
